@@ -260,7 +260,10 @@ func (x *exec) obligation(c *smt.Term, clause string, isPanic bool) {
 		case smt.Unsat:
 			x.stats.Discharged++
 		case smt.Sat:
-			x.recordFailure(clause, isPanic, m)
+			if x.recordFailure(clause, isPanic, m) != "" && !isPanic {
+				// a listed known finding: keep checking the rest of the path without assuming the clause
+				return
+			}
 		default:
 			x.stats.Inconclusive++
 			x.stats.InconclusiveClauses[clause]++
@@ -278,7 +281,7 @@ func (x *exec) obligation(c *smt.Term, clause string, isPanic bool) {
 	}
 }
 
-func (x *exec) recordFailure(clause string, isPanic bool, m *smt.Model) {
+func (x *exec) recordFailure(clause string, isPanic bool, m *smt.Model) string {
 	key := ""
 	for _, k := range x.known {
 		if len(k.prefixes) == 0 {
@@ -306,6 +309,7 @@ func (x *exec) recordFailure(clause string, isPanic bool, m *smt.Model) {
 	} else {
 		x.stats.Violations++
 	}
+	return key
 }
 
 // concretePanic is a Go runtime panic (or explicit panic) on a concrete path:
